@@ -478,7 +478,7 @@ package zygo
 //@ C02,C04,C05,C15 modifies stack.tos, stack.elements, elems(stack.elements)
 //@ C02,C04,C05,C15 ensures ok: r1 == nil ==> wfs(stack) && old(stack.tos) >= 0 && stack.tos == old(stack.tos) - 1
 //@ C02,C04,C05,C15 ensures underflow: r1 != nil ==> old(stack.tos) < 0 && stack.tos == old(stack.tos)
-//@ C15 ensures keeps: r1 == nil ==> forall(k, 0 <= k && k <= stack.tos ==> stack.elements[k] == old(stack.elements[k]))
+//@ C04,C15 ensures keeps: r1 == nil ==> forall(k, 0 <= k && k <= stack.tos ==> stack.elements[k] == old(stack.elements[k]))
 //@ C02,C04,C15 ensures value: r1 == nil ==> old(typeis(stack.elements[stack.tos], DataStackElem)) && r0 == old(stack.elements[stack.tos].(DataStackElem).expr)
 
 //@ func functionSize
@@ -1437,3 +1437,26 @@ package zygo
 //@ C01 ensures index-checked: r1 == nil && !sliceShape(x) ==> len(x.Select.Val) == 1 && typeis(x.Select.Val[0], *SexpInt) && 0 <= x.Select.Val[0].(*SexpInt).Val && x.Select.Val[0].(*SexpInt).Val < len(x.Container.Val)
 //@ func (*SexpArraySelector).AssignToSelection
 //@ C01 nopanic
+
+// C04: loop clean-up. A loop's pop-until / clear instruction unwinds the data stack to ITS
+// OWN mark (the mark carrying the loop's statement symbol), not to whatever mark is nearest:
+// a labelled break/continue out of an inner loop leaves the inner loop's mark above it.
+//@ macro ownMark(v Sexp, sym *SexpSymbol) bool = typeis(v, *SexpStackmark) && v.(*SexpStackmark).sym.number == sym.number
+//@ func (ClearStackmarkInstr).Execute
+//@ requires typeinv[Zlisp] distinctStacks(env)
+//@ requires typeinv[Stack] wfs(env.datastack)
+//@ C04 ensures clears-through-its-own-mark: r0 == nil ==> env.pc == old(env.pc) + 1 && env.datastack.tos < old(env.datastack.tos) && env.datastack.tos >= 0 - 1
+//@ |  && let(t, env.datastack.tos, ownMark(old(env.datastack.elements[t + 1].(DataStackElem).expr), s.sym)
+//@ |     && forall(k, t + 1 < k && k <= old(env.datastack.tos) ==> !ownMark(old(env.datastack.elements[k].(DataStackElem).expr), s.sym)))
+//@ C04 loop 0 invariant shape: env.datastack == old(env.datastack) && wfs(env.datastack) && env.datastack.tos <= old(env.datastack.tos) && env.datastack.tos >= 0 - 1 && env.pc == old(env.pc)
+//@ C04 loop 0 invariant no-own-mark-above: forall(k, env.datastack.tos < k && k <= old(env.datastack.tos) ==> !ownMark(old(env.datastack.elements[k].(DataStackElem).expr), s.sym))
+//@ C04 loop 0 invariant below-kept: forall(k, 0 <= k && k <= env.datastack.tos ==> env.datastack.elements[k] == old(env.datastack.elements[k]))
+//@ func (PopUntilStackmarkInstr).Execute
+//@ requires typeinv[Zlisp] distinctStacks(env)
+//@ requires typeinv[Stack] wfs(env.datastack)
+//@ C04 ensures pops-down-to-its-own-mark: r0 == nil ==> env.pc == old(env.pc) + 1 && env.datastack.tos <= old(env.datastack.tos) && env.datastack.tos >= 0
+//@ |  && let(t, env.datastack.tos, ownMark(old(env.datastack.elements[t].(DataStackElem).expr), s.sym)
+//@ |     && forall(k, t < k && k <= old(env.datastack.tos) ==> !ownMark(old(env.datastack.elements[k].(DataStackElem).expr), s.sym)))
+//@ C04 loop 0 invariant shape: env.datastack == old(env.datastack) && wfs(env.datastack) && env.datastack.tos <= old(env.datastack.tos) && env.datastack.tos >= 0 - 1 && env.pc == old(env.pc) + 1
+//@ C04 loop 0 invariant no-own-mark-above: forall(k, env.datastack.tos < k && k <= old(env.datastack.tos) ==> !ownMark(old(env.datastack.elements[k].(DataStackElem).expr), s.sym))
+//@ C04 loop 0 invariant below-kept: forall(k, 0 <= k && k <= env.datastack.tos ==> env.datastack.elements[k] == old(env.datastack.elements[k]))
